@@ -71,6 +71,12 @@ def run(check, an: Analysis):
     check.rule('F', 'FIFO: `_buffer` only sees append/popleft; the receive runs inside the '
                     'read mutex')
     check.rule('I', 'iteration yields the values of `await self`, ends only on StreamClosed')
+    check.rule('M', 'the mutex that orders the receivers keeps the Lock discipline (C09): '
+                    'taken only when free, handed over FIFO, passed on by a leaving '
+                    'designated owner whatever interrupts it')
+    from ..report import SubCheck
+    from . import c09
+    c09.run(SubCheck(check, 'M', 'Lock'), an)
     an.cls(QUEUE)
     recv = an.callee(QUEUE, '_await_message')
     put = an.callee(QUEUE, 'put')
